@@ -145,4 +145,625 @@ def c02(ck):
              "harness, against core::str::from_utf8; dec-random: malformed-weighted streams through InputGenerator. non-trivial = emits at least one string")
 
 
-PROPS = {"C04": c04, "C02": c02}
+def drv_run(engine, lines, featset=None):
+    drv = core.build_driver()
+    return core.run_engine(drv, engine, lines, is_impl=False)
+
+
+def parse_steps(out):
+    steps = []
+    for st in out.split(" ; "):
+        f = st.split("|")
+        if len(f) != 7:
+            return None
+        steps.append({"r": f[0], "text": f[1], "cur": f[2], "hist": f[3], "p": f[4], "calls": f[5], "sink": f[6]})
+    return steps
+
+
+# ------------------------------------------------------------------ C07 tokenisation
+def c07(ck):
+    rng = ck.rng
+    thorough = ck.tier == "thorough"
+    # 1. exhaustive short lines over six symbols: implementation vs in-place model; spec tokeniser as oracle
+    depth = 7 if thorough else 6
+    lines = [gen.hx(b) for b in gen.product_bytes(gen.TOK_ALPHA, depth)]
+    spec = dict(zip(lines, drv_run("tokspec", lines)))
+
+    def oracle_tok(case, io):
+        m = dict(kv.split("=", 1) for kv in io.split(" "))
+        if m["toks"] != spec[case]:
+            return "quoting rules (tokens_fun) give [%s] for line %s, implementation gave [%s]" % (spec[case], case, m["toks"])
+        return None
+
+    proj = lambda o: o.split(" toks=")[1] if " toks=" in o else o
+    ck.run_family(Family("tok-exhaustive-len%d" % depth, "tok", lines, project=proj, oracle=oracle_tok, shrink=core.shrink_hex_line,
+                         exhaustive=True, nontrivial=lambda c, o: "toks=-" not in o))
+    # 2. random long lines
+    n = 20000 if thorough else 3000
+    rl = sorted(set(gen.hx(gen.rand_line(rng, 40)) for _ in range(n)))
+    spec.update(zip(rl, drv_run("tokspec", rl)))
+    ck.run_family(Family("tok-random", "tok", rl, project=proj, oracle=oracle_tok, shrink=core.shrink_hex_line,
+                         nontrivial=lambda c, o: "," in o))
+    # 3. round trip: quote a list of arbitrary strings, tokenise, get the list back
+    m = 30000 if thorough else 5000
+    lists = [[gen.rand_string(rng) for _ in range(rng.choice([0, 1, 1, 2, 2, 3, 4]))] for _ in range(m)]
+    lists += [[b""], [b"", b"a"], [b"", b""], [b"a", b""], [b'"'], [b"\\"], [b" "], [b"a b", b'c"d', b"e\\f"]]
+    qin = [",".join(gen.hx(x) for x in l) if l else "-" for l in lists]
+    qout = drv_run("quote", qin)
+    rendered = [o.split(" ")[0] for o in qout]
+    want = {}
+    for l, r in zip(lists, rendered):
+        want[r] = ",".join(gen.hx(x) for x in l) if l else "-"
+
+    def oracle_rt(case, io):
+        got = io.split(" toks=")[1]
+        if got != want[case]:
+            return "round trip: tokenising the quoted rendering %s must return [%s], implementation returned [%s]" % (case, want[case], got)
+        return None
+
+    ck.run_family(Family("quote-roundtrip", "tok", sorted(set(rendered)), project=proj, oracle=oracle_rt, shrink=None,
+                         nontrivial=lambda c, o: True))
+    return ck.finish(trusted=TB_COMMON, rule="tok-exhaustive: every line up to the stated length over {a, space, quote, backslash, dash, e-acute}; "
+                     "tok-random: random lines up to 40 symbols; quote-roundtrip: lists of arbitrary NUL-free strings rendered by the extracted "
+                     "render_quoted, tokenised by the implementation, compared with the list. Oracle = extracted tokens_fun. non-trivial = at least one token")
+
+
+# ------------------------------------------------------------------ C08 argument classification
+def c08(ck):
+    rng = ck.rng
+    thorough = ck.tier == "thorough"
+    import itertools
+    depth = 4 if thorough else 3
+    lines = []
+    for k in range(depth + 1):
+        for t in itertools.product(gen.ARG_TOKENS[:9], repeat=k):
+            lines.append(gen.hx(gen.cmd_line(b"c", list(t))))
+    n = 20000 if thorough else 4000
+    for _ in range(n):
+        toks = [rng.choice(gen.ARG_TOKENS) if rng.randrange(3) else b"-" * rng.randrange(0, 4) + gen.rand_text(rng, 3, 1).replace(b" ", b"").replace(b'"', b"").replace(b"\\", b"")
+                for _ in range(rng.randrange(0, 7))]
+        name = rng.choice([b"c", b"help", b"get", "é".encode()])
+        lines.append(gen.hx(gen.cmd_line(name, toks)))
+    lines = sorted(set(lines))
+    spec = dict(zip(lines, drv_run("argspec", lines)))
+
+    def oracle(case, io):
+        got = io.split(" help=")[0] if io != "none" else "none"
+        if got != spec[case]:
+            return "classification spec (classify_all) gives [%s] for line %s, implementation gave [%s]" % (spec[case], case, got)
+        return None
+
+    ck.run_family(Family("args-classify", "cmd", lines, oracle=oracle, shrink=core.shrink_hex_line,
+                         nontrivial=lambda c, o: "args=-" not in o and o != "none"))
+    return ck.finish(trusted=TB_COMMON, rule="every token list up to the stated length over {'', -, --, -a, -a+e-acute, --x, ---x, a, 'e-acute b'} plus random lists "
+                     "with clusters of multi-byte characters; quoted so that the tokeniser reproduces the tokens; implementation (ArgsIter, into_args "
+                     "after every k, HelpRequest) vs model, and vs the extracted classify_all. non-trivial = at least one argument")
+
+
+# ------------------------------------------------------------------ C13 framing
+def c13(ck):
+    rng = ck.rng
+    thorough = ck.tier == "thorough"
+    n = 30000 if thorough else 5000
+    cases = ["-", "s:.", "l:.", "s:0a", "l:0a", "s:0d0a", "s:610d;s:0a", "s:61;s:0d0a", "l:610a62", "s:0d;s:0a62", "s:61;s:.", "u:610a", "f:62"]
+    cases += [gen.rand_writer_ops(rng) for _ in range(n)]
+    cases = sorted(set(cases))
+    spec = dict(zip(cases, drv_run("wrspec", cases)))
+
+    def oracle(case, io):
+        if io != spec[case]:
+            return "framing spec: writes [%s] must put %s on the sink, implementation put %s" % (case, spec[case], io)
+        return None
+
+    ck.run_family(Family("writer-frame", "wr", cases, oracle=oracle, shrink=core.shrink_ops_line(0),
+                         nontrivial=lambda c, o: c != "-"))
+    # sessions with handler output and Cli::write at arbitrary points: framing of every Enter / write call
+    m = 6000 if thorough else 1200
+    ses = [gen.rand_session(rng, 25) for _ in range(m)]
+    ck.run_family(Family("session-frames", "ses", ses, shrink=core.shrink_ops_line(4), decisive=False,
+                         project=lambda o: [(s["r"], s["sink"].replace(",F", "").replace("F,", "")) for s in (parse_steps(o) or [])] or o,
+                         nontrivial=lambda c, o: "w:" in c or "0d" in c))
+    return ck.finish(trusted=TB_COMMON, rule="writer-frame: random texts (LF, CR LF, CR, empty) split over write_str/writeln_str/uwrite!/write! calls inside "
+                     "Cli::write; sink bytes compared with the extracted frame_write; session-frames: random sessions, sink bytes per call "
+                     "implementation vs model. non-trivial = at least one write")
+
+
+# ------------------------------------------------------------------ C05 editor
+def c05(ck):
+    rng = ck.rng
+    thorough = ck.tier == "thorough"
+    import itertools
+    alpha = gen.ed_ops_alphabet()
+    depth = 5 if thorough else 4
+    cases = []
+    for cap in range(0, 9):
+        for k in range(depth + 1):
+            for t in itertools.product(alpha, repeat=k):
+                cases.append("%d %s" % (cap, ";".join(t)))
+    ex_n = len(cases)
+    n = 20000 if thorough else 3000
+    for _ in range(n):
+        cases.append("%d %s" % (rng.choice([0, 1, 2, 3, 4, 5, 6, 7, 8, 9, 12, 16]), ";".join(gen.rand_ed_ops(rng, rng.randrange(1, 40)))))
+    spec = dict(zip(cases, drv_run("edspec", cases)))
+
+    def oracle(case, io):
+        if io != spec[case]:
+            a, b = io.split(" "), spec[case].split(" ")
+            k = next((i for i in range(min(len(a), len(b))) if a[i] != b[i]), min(len(a), len(b)))
+            return "ideal editor differs at op %d: ideal %s, implementation %s" % (k, b[k] if k < len(b) else "-", a[k] if k < len(a) else "-")
+        return None
+
+    ck.run_family(Family("editor-ops", "ed", cases, oracle=oracle, shrink=core.shrink_ops_line(1),
+                         nontrivial=lambda c, o: ":N:" in o or "ml" in c or "rm" in c))
+    ck.cov["families"]["editor-ops"]["exhaustive_part"] = "all op sequences of length <= %d over 7 ops for cap 0..8 (%d cases)" % (depth, ex_n)
+    # through the whole Cli
+    m = 6000 if thorough else 1200
+    ses = [gen.rand_session(rng, 30, api=False) for _ in range(m)]
+    ck.run_family(Family("session-line", "ses", ses, shrink=core.shrink_ops_line(4), decisive=False,
+                         project=lambda o: [(s["text"], s["cur"]) for s in (parse_steps(o) or [])] or o,
+                         nontrivial=lambda c, o: "1b5b44" in c))
+    return ck.finish(trusted=TB_COMMON, rule="editor-ops: every sequence of <= depth operations over {insert a/e-acute/euro/emoji, left, right, remove} for buffer sizes 0..8, "
+                     "plus random long sequences (multi-char inserts, clear); text/cursor/accepted after every op vs the extracted ideal_step; session-line: "
+                     "random key sessions, (text, cursor) after every byte implementation vs model. non-trivial = a rejected insert, a move or a removal occurs")
+
+
+# ------------------------------------------------------------------ C10 history
+def hist_project_impl(o):
+    """raw buffer -> entry list and position index"""
+    out = []
+    for st in o.split(" "):
+        f = st.split(":")
+        if len(f) != 3:
+            return o
+        ret, buf, cur = f
+        b = bytes.fromhex(buf) if buf != "." else b""
+        ents = b.split(b"\x00")[:-1] if b else []
+        pos = "N"
+        if cur != "N":
+            off, pos = 0, "?"
+            for i, e in enumerate(ents):
+                if off == int(cur):
+                    pos = str(i)
+                off += len(e) + 1
+        out.append("%s:%s:%s" % (ret, ",".join(gen.hx(e) for e in ents) if ents else "-", pos))
+    return " ".join(out)
+
+
+def c10(ck):
+    rng = ck.rng
+    thorough = ck.tier == "thorough"
+    import itertools
+    alpha = ["p:61", "p:62", "p:c3a9", "p:6162", "o", "n"]
+    depth = 6 if thorough else 5
+    cases = []
+    for hcap in range(0, 11):
+        for k in range(depth + 1):
+            for t in itertools.product(alpha, repeat=k):
+                cases.append("%d %s" % (hcap, ";".join(t)))
+    ex_n = len(cases)
+    n = 20000 if thorough else 4000
+    for _ in range(n):
+        cases.append("%d %s" % (rng.choice([0, 1, 2, 3, 4, 5, 6, 7, 8, 9, 10, 12, 16, 24]), ";".join(gen.rand_hist_ops(rng, rng.randrange(1, 40)))))
+    spec = dict(zip(cases, drv_run("histspec", cases)))
+
+    def oracle(case, io):
+        got = hist_project_impl(io)
+        if got != spec[case]:
+            a, b = got.split(" "), spec[case].split(" ")
+            k = next((i for i in range(min(len(a), len(b))) if a[i] != b[i]), min(len(a), len(b)))
+            return "history spec differs at op %d: spec %s, implementation %s" % (k, b[k] if k < len(b) else "-", a[k] if k < len(a) else "-")
+        return None
+
+    ck.run_family(Family("history-ops", "hist", cases, oracle=oracle, project=hist_project_impl, shrink=core.shrink_ops_line(1),
+                         nontrivial=lambda c, o: "o" in c.split(" ", 1)[-1].split(";") and "p:" in c))
+    ck.cov["families"]["history-ops"]["exhaustive_part"] = "all op sequences of length <= %d over %s for hcap 0..10 (%d cases)" % (depth, alpha, ex_n)
+    m = 6000 if thorough else 1200
+    ses = [gen.rand_session(rng, 40, api=False) for _ in range(m)]
+    ck.run_family(Family("session-recall", "ses", ses, shrink=core.shrink_ops_line(4), decisive=False,
+                         project=lambda o: [(s["text"], s["hist"]) for s in (parse_steps(o) or [])] or o,
+                         nontrivial=lambda c, o: "1b5b41" in c and "0d" in c))
+    return ck.finish(trusted=TB_COMMON, rule="history-ops: every sequence of <= depth operations over push a/b/e-acute/ab, older, newer for history sizes 0..10 plus random "
+                     "long sequences with multi-byte and over-long lines; returned line, retained entries (raw buffer projected to the entry list) and position after "
+                     "every op vs the extracted HistSpec; session-recall: random sessions with Up/Down, implementation vs model. non-trivial = push and older both occur")
+
+
+# ------------------------------------------------------------------ C17 every scalar
+def c17(ck):
+    import time
+    rng = ck.rng
+    thorough = ck.tier == "thorough"
+    cps = list(gen.BOUNDARY_CPS) + [0x7F, 0x80, 0x7FF, 0x800, 0xFFFF, 0x10000, 0x10FFFF, 0xD7FF, 0xE000]
+    cps += [gen.rand_cp(rng, 1) for _ in range(5000 if thorough else 1200)]
+    cases = []
+    for c in cps:
+        if 0xD800 <= c <= 0xDFFF:
+            continue
+        e = gen.hx(gen.enc(c))
+        nb = gen.hx(gen.enc(rng.choice(gen.BOUNDARY_CPS)))
+        cases += ["enc %d" % c, "pop %s%s" % (e, nb), "pop %s" % e, "cnt %s%s%s" % (nb, e, nb), "idx %s%s%s 1" % (nb, e, nb), "idx %s%s%s 2" % (nb, e, nb),
+                  "idx %s%s 2" % (nb, e), "pfx %s%s %s%s" % (e, nb, e, e), "pfx %s%s%s %s%s%s" % (nb, e, nb, nb, e, e), "trim 2020%s20" % e]
+    cases = sorted(set(cases))
+
+    def oracle(case, io):
+        p = case.split(" ")
+        if p[0] == "enc":
+            want = gen.hx(chr(int(p[1])).encode("utf-8"))
+        elif p[0] == "pop":
+            s = bytes.fromhex(p[1]).decode("utf-8")
+            want = "%d %s" % (ord(s[0]), gen.hx(s[1:].encode("utf-8")))
+        elif p[0] == "cnt":
+            want = str(len(bytes.fromhex(p[1]).decode("utf-8")))
+        elif p[0] == "idx":
+            s = bytes.fromhex(p[1]).decode("utf-8")
+            k = int(p[2])
+            want = str(len(s[:k].encode("utf-8"))) if k < len(s) else "N"
+        elif p[0] == "pfx":
+            a, b = bytes.fromhex(p[1]).decode("utf-8"), bytes.fromhex(p[2]).decode("utf-8")
+            k = 0
+            while k < min(len(a), len(b)) and a[k] == b[k]:
+                k += 1
+            want = str(len(a[:k].encode("utf-8")))
+        else:
+            want = gen.hx(bytes.fromhex(p[1]).decode("utf-8").lstrip(" ").encode("utf-8"))
+        return None if io == want else "Unicode/UTF-8 definition gives %s for `%s`, implementation gave %s" % (want, case, io)
+
+    ck.run_family(Family("utils-boundary-random", "utils", cases, oracle=oracle, nontrivial=lambda c, o: True))
+    # all scalar values inside the harness against Rust's char/str
+    try:
+        hb = ck.binaries("hac", "release" if thorough else "debug")
+        t = time.time()
+        step = 1 if thorough else 1
+        outs = core.run_engine(hb, "utilsx", ["%d 16" % i for i in range(16)])
+        tot = 0
+        for o in outs:
+            if not o.startswith("checked"):
+                ck.report("utilsx-all-scalars", "crash", "enumeration crashed: " + o, {"case": "utilsx"})
+                continue
+            m = dict(kv.split("=") for kv in o.split(" "))
+            tot += int(m["checked"])
+            if m["bad"] != "-":
+                cp = m["bad"].split(",")[0]
+                ck.report("utilsx-all-scalars", "oracle", "scalar U+%s: encode/pop_front/count/index/prefix or decoder round trip disagrees with Rust's char/str" % cp,
+                          {"case": "enc %d" % int(cp, 16), "engine": "utils"})
+        ck.count("utilsx-all-scalars", tot, tot, exhaustive=True, seconds=time.time() - t, sample="every scalar value U+0020..U+10FFFF except U+007F and surrogates")
+    except Broken as b:
+        ck.broken(b)
+    # typed, echoed, moved over, deleted, submitted, recalled, used as short option: sessions on boundary scalars
+    ses = []
+    for c in gen.BOUNDARY_CPS + [gen.rand_cp(rng, 0) for _ in range(300 if thorough else 60)]:
+        if c in (0x20, 0x7F, 0x22, 0x5C, 0x2D) or 0xD800 <= c <= 0xDFFF:
+            continue
+        e = gen.hx(gen.enc(c))
+        ses.append("16 32 1 raw b:78%s20%s61;b:1b5b44;b:1b5b44;b:1b5b43;b:08;b:%s;b:0d;b:1b5b41;b:0d;b:63202d%s0d" % (e, e, e, e))
+    def oracle_ses(case, io):
+        st = parse_steps(io)
+        if not st:
+            return "malformed session output"
+        e = case.split("b:78")[1].split("20")[0]
+        calls = [s["calls"] for s in st if s["calls"] != "-"]
+        want0 = "78%s(V:%s61)" % (e, e)
+        cp = ord(bytes.fromhex(e).decode("utf-8"))
+        want2 = "63(S:%d)" % cp
+        if len(calls) != 3 or calls[0] != want0 or calls[1] != want0 or calls[2] != want2:
+            return "scalar U+%04X did not survive typing/editing/recall/short option: handler saw %s, expected [%s, %s, %s]" % (cp, calls, want0, want0, want2)
+        return None
+    ck.run_family(Family("session-scalars", "ses", ses, oracle=oracle_ses, nontrivial=lambda c, o: True))
+    return ck.finish(trusted=TB_COMMON + ["Python's and Rust's own UTF-8 encoders/decoders as independent oracles"],
+                     rule="utils-boundary-random: boundary and random scalars of every encoded length next to neighbours of other lengths through encode_utf8, "
+                     "char_pop_front, char_count, char_byte_index, common_prefix_len, trim_start (implementation vs model vs Python's codec); utilsx: ALL scalar values "
+                     "inside the harness against Rust's char/str; session-scalars: each scalar typed in a name and an argument, moved over, deleted, retyped, submitted, recalled, "
+                     "resubmitted, used as a short option")
+
+
+# ------------------------------------------------------------------ C06 terminal view
+def term_oracle(cases, impl_outs):
+    res = drv_run("termchk", impl_outs)
+    return dict(zip(cases, res))
+
+
+def width1_session(rng, nops):
+    """sessions restricted to what C06 quantifies over: printable width-1 characters (no wide/zero-width: we use ASCII, Latin, Greek, arrows)"""
+    return gen.rand_session(rng, nops)
+
+
+def c06(ck):
+    rng = ck.rng
+    thorough = ck.tier == "thorough"
+    n = 8000 if thorough else 1500
+    corpus = [l.strip() for l in open(os.path.join(core.ROOT, "corpus", "C06", "sessions.txt")) if l.strip() and not l.startswith("#")]
+    ses = corpus + [gen.rand_session_w1(rng, rng.choice([10, 25, 50])) for _ in range(n)]
+    try:
+        hb = ck.binaries("hac", "debug")
+        impl = core.run_engine(hb, "ses", ses)
+        verdict = dict(zip(ses, drv_run("termchk", impl)))
+    except Broken as b:
+        ck.broken(b)
+        return ck.finish(trusted=TB_COMMON, rule="build broke")
+
+    def oracle(case, io):
+        v = verdict.get(case)
+        if v is None:
+            v = drv_run("termchk", [io])[0]
+        return None if v == "ok" else "terminal emulator: current row / cursor column differ from prompt + line / editor cursor: " + v
+
+    ck.run_family(Family("session-view", "ses", ses, oracle=oracle, shrink=core.shrink_ops_line(4), decisive=False,
+                         project=lambda o: [(s["text"], s["cur"], s["p"], s["sink"].replace(",F", "").replace("F,", "")) for s in (parse_steps(o) or [])] or o,
+                         nontrivial=lambda c, o: ("w:" in c or ";p:" in c or "1b5b44" in c or "09" in c)))
+    return ck.finish(trusted=TB_COMMON + ["Spec/Terminal.v: unbounded-width line emulator, width-1 characters, no auto-wrap (as the property's quantifier says)"],
+                     rule="random sessions (all keys, Cli::write with split texts, set_prompt, handler output and handler prompt changes, four prompts incl. empty and multi-byte, "
+                     "buffer sizes 0..64) over width-1 characters; after EVERY call the implementation's sink bytes are fed to the extracted emulator and its current row and cursor "
+                     "column are compared with the implementation's own prompt + editor text and cursor (hooks); sink bytes also compared with the model. non-trivial = "
+                     "contains an API write, a prompt change, a cursor move or a completion")
+
+
+# ------------------------------------------------------------------ C15 flushed
+def c15(ck):
+    rng = ck.rng
+    thorough = ck.tier == "thorough"
+    n = 8000 if thorough else 1500
+    ses = [gen.rand_session(rng, rng.choice([10, 30])) for _ in range(n)]
+
+    def oracle(case, io):
+        st = parse_steps(io)
+        if st is None:
+            return "malformed session output"
+        for k, s_ in enumerate(st):
+            if s_["r"] == "ok" and s_["sink"] != "-":
+                ops = s_["sink"].split(",")
+                if ops[-1] != "F":
+                    return "call %d returned Ok with unflushed output: sink calls %s" % (k, s_["sink"])
+        return None
+
+    def unflushed(o):
+        st = parse_steps(o)
+        if st is None:
+            return o
+        return [(s_["r"], 0 if s_["sink"] == "-" or s_["sink"].split(",")[-1] == "F" else 1, s_["sink"] == "-") for s_ in st]
+
+    ck.run_family(Family("session-flush", "ses", ses, oracle=oracle, project=unflushed, shrink=core.shrink_ops_line(4),
+                         nontrivial=lambda c, o: "0d" in c or "w:" in c))
+    return ck.finish(trusted=TB_COMMON, rule="random sessions incl. handler output, help, Cli::write, set_prompt; after every API call that returned Ok the last sink call must be a flush "
+                     "(or there was no sink call); projection = (result, unflushed?, silent?) per call vs model. non-trivial = contains an Enter or an API write")
+
+
+# ------------------------------------------------------------------ C14 failing sink
+FAULT_CORPUS = [
+    "16 32 1 raw b:6563686f206162630d",
+    "16 32 1 raw b:6162;b:1b5b44;b:58;b:08;b:1b5b43;b:0d",
+    "16 32 1 raw b:6c6e20610d;b:1b5b41;b:1b5b41;b:1b5b42;b:1b5b42",
+    "16 32 1 raw b:6865;b:09;b:0d",
+    "24 32 1 raw b:22c3a92220226220632220640d",
+    "16 32 1 raw b:6e6c20610d",
+    "16 32 1 raw b:70726f6d707420620d",
+    "16 32 1 raw b:6162;b:1b5b44;w:s68690a,s78",
+    "16 32 1 raw b:6162;b:1b5b44;p:2",
+    "16 32 1 raw b:68656c700d",
+    "16 32 1 raw b:68656c7020780d",
+    "16 32 1 raw b:78202d680d",
+    "16 32 2 raw b:6d696420610d",
+    "4 4 0 raw b:61626364;b:65;b:0d;b:1b5b41",
+]
+
+
+def c14(ck):
+    rng = ck.rng
+    thorough = ck.tier == "thorough"
+    try:
+        hb = ck.binaries("hac", "debug")
+    except Broken as b:
+        ck.broken(b)
+        return ck.finish(trusted=TB_COMMON, rule="build broke")
+    base = list(FAULT_CORPUS) + [gen.rand_session(rng, 12) for _ in range(150 if thorough else 30)]
+    base_out = core.run_engine(hb, "ses", base)
+    cases = []
+    nofault = {}
+    for b, o in zip(base, base_out):
+        st = parse_steps(o)
+        if st is None:
+            continue
+        head, ops = b.split(" ", 4)[:4], b.split(" ", 4)[4].split(";")
+        # expand multi-byte b: ops to one byte per op so that step k = op k-1
+        flat = []
+        for op in ops:
+            if op.startswith("b:"):
+                hx_ = op[2:]
+                flat += ["b:" + hx_[i:i + 2] for i in range(0, len(hx_), 2)]
+            else:
+                flat.append(op)
+        # sink calls made by each step (after build)
+        calls = [0 if s_["sink"] == "-" else len(s_["sink"].split(",")) for s_ in st]
+        for k in range(1, len(st)):
+            for j in range(calls[k]):
+                for mode in ("once", "perm"):
+                    c = " ".join(head) + " " + ";".join(flat[:k - 1] + ["x:%d:%s" % (j, mode), flat[k - 1], "x:off", "b:78", "b:0d"])
+                    cases.append(c)
+                    nofault[c] = (st[k - 1]["text"], st[k]["text"], k)
+
+    def oracle(case, io):
+        st = parse_steps(io)
+        if st is None:
+            return "malformed session output / crash: " + io[:200]
+        before, after_ok, k = nofault[case]
+        f = st[k]
+        if f["r"] != "err":
+            if "XW" in f["sink"] or "XF" in f["sink"]:
+                return "sink call failed during call %d but the call returned Ok (error swallowed); sink calls: %s" % (k, f["sink"])
+            return None
+        if f["text"] not in (before, after_ok, "."):
+            return "after the failed call the line is %s: neither as before (%s), nor as the key would have left it (%s), nor empty" % (f["text"], before, after_ok)
+        # later: typing x and Enter with a working sink dispatches only typed text
+        last = st[-1]
+        if last["r"] != "ok":
+            return "CLI not usable after the failure: later Enter returned error with a working sink"
+        typed = f["text"]
+        if last["calls"] != "-":
+            name = last["calls"].split("(")[0]
+            raw = bytes.fromhex(name) if name != "." else b""
+            if b"\x00" in raw:
+                return "later Enter dispatched a command name containing NUL (tokenised buffer leaked): " + last["calls"]
+        return None
+
+    ck.run_family(Family("fault-enumeration", "ses", cases, oracle=oracle, shrink=None, decisive=False,
+                         project=lambda o: [(s_["r"], s_["text"], s_["calls"]) for s_ in (parse_steps(o) or [])] or o,
+                         nontrivial=lambda c, o: "err" in o, exhaustive=True))
+    return ck.finish(level="proof", trusted=TB_COMMON, rule="for every scenario of the corpus (typing, editing, recall, completion, quoted arguments, handler output of several kinds, "
+                     "prompt change, Cli::write, set_prompt, help, help <cmd>, -h, tight buffers) and random short sessions: EVERY sink call of EVERY step fails once / permanently, "
+                     "then `x` Enter with a working sink. Oracle on the implementation: the call returns Err iff a sink call failed in it; the line afterwards is as before / as the key "
+                     "would have left it (from the fault-free run of the implementation itself) / empty; the later Enter succeeds. Result, line and later dispatches also compared with the model. "
+                     "non-trivial = some call returned Err")
+
+
+# ------------------------------------------------------------------ C01 dispatch
+def c01(ck):
+    rng = ck.rng
+    thorough = ck.tier == "thorough"
+    n = 10000 if thorough else 2000
+    ses = [gen.rand_session(rng, rng.choice([15, 40]), api=False) for _ in range(n)]
+
+    def proj(o):
+        st = parse_steps(o)
+        if st is None:
+            return o
+        return [(s_["calls"], s_["text"] == ".", s_["sink"].count("W" + ("2420" if False else ""))) if s_["calls"] != "-" else (s_["calls"], s_["text"], s_["cur"]) for s_ in st]
+
+    def oracle(case, io):
+        st = parse_steps(io)
+        if st is None:
+            return "malformed session output / crash: " + io[:200]
+        # flatten bytes to know which step is which byte
+        ops = case.split(" ", 4)[4].split(";")
+        for s_ in st:
+            if s_["calls"] != "-" and "+" in s_["calls"]:
+                return "handler invoked more than once by one byte: " + s_["calls"]
+            if s_["calls"] != "-" and (s_["text"] != "." or s_["cur"] != "0"):
+                return "line not empty after a dispatch: text=%s cursor=%s" % (s_["text"], s_["cur"])
+        return None
+
+    ck.run_family(Family("session-dispatch", "ses", ses, oracle=oracle, project=proj, shrink=core.shrink_ops_line(4),
+                         nontrivial=lambda c, o: "(" in o))
+    return ck.finish(trusted=TB_COMMON, rule="random sessions mixing characters of every encoded length, Backspace, Left/Right, Up/Down, Tab and all four terminators at buffer sizes 0..64 "
+                     "(both buffers); handler-call log (name + classified arguments) per byte, line-empty after dispatch, implementation vs model; direct oracle: at most one "
+                     "call per byte and the line is empty afterwards. non-trivial = at least one dispatch")
+
+
+# ------------------------------------------------------------------ C03 no panic
+def c03(ck):
+    rng = ck.rng
+    thorough = ck.tier == "thorough"
+    n = 12000 if thorough else 2500
+    ses = []
+    for i in range(n):
+        cap = rng.randrange(0, 65) if i % 3 else rng.choice([0, 1, 2, 3, 4])
+        hcap = rng.randrange(0, 65) if i % 5 else rng.choice([0, 1, 2, 3, 4])
+        ops = gen.rand_session_ops(rng, rng.choice([20, 60]), api=True, malformed=True)
+        ses.append("%d %d %d raw %s" % (cap, hcap, rng.randrange(4), ";".join(ops)))
+
+    def oracle(case, io):
+        st = parse_steps(io)
+        if st is None:
+            return "crash / malformed output: " + io[:300]
+        for s_ in st:
+            if not py_valid(s_["text"]):
+                return "editor text is not valid UTF-8: " + s_["text"]
+        return None
+
+    ck.run_family(Family("session-malformed-debug", "ses", ses, oracle=oracle, shrink=core.shrink_ops_line(4), decisive=False,
+                         project=lambda o: [(s_["r"], s_["text"], s_["cur"], s_["hist"], s_["calls"]) for s_ in (parse_steps(o) or [])] or o,
+                         nontrivial=lambda c, o: True))
+    if thorough:
+        ck.run_family(Family("session-malformed-release", "ses", ses[:4000], oracle=oracle, shrink=core.shrink_ops_line(4), decisive=False, profile="release",
+                             project=lambda o: [(s_["r"], s_["text"], s_["cur"], s_["hist"], s_["calls"]) for s_ in (parse_steps(o) or [])] or o,
+                             nontrivial=lambda c, o: True))
+    return ck.finish(trusted=TB_COMMON + ["rustc debug profile: overflow checks, debug_assert!, the standard library's UB-precondition checks (get_unchecked, copy_nonoverlapping, "
+                     "from_raw_parts_mut, unwrap_unchecked, from_u32_unchecked); memory safety of the compiled Rust itself is a runtime fact the model cannot exhibit (partial by nature)"],
+                     rule="random sessions over arbitrary bytes 0..255 (malformed-weighted), all keys, Cli::write and set_prompt interleaved, command buffer and history buffer sizes 0..64 (small sizes "
+                     "weighted); debug build with overflow and UB-precondition checks; every worker exit status inspected, every line validated as UTF-8; state also compared with the "
+                     "checked-style model (None = panic site reached). Every case counts as non-trivial (distinct sessions)")
+
+
+# ------------------------------------------------------------------ C11 completion
+AC_NAMESETS = [
+    [b"get-led", b"set-led", b"get-adc"], [b"get-led", b"go"], [b"go", b"get-led"], [b"help-me", b"hello"], [b"h"], [b"he", b"help", b"helper"],
+    ["привет".encode(), "приказ".encode()], ["led-佐".encode(), "led-佗".encode()], [b"a", b"ab", b"abc"], [b"abc", b"ab", b"a"], [b"x"], [],
+    [b"exit", b"e-ot\xc3\xa9\xf0\x9f\x98\x80", b"eee"], [b"set", b"status", b"start", b"stop"], [b"stop", b"set", b"start", b"status"],
+]
+
+
+def c11(ck):
+    rng = ck.rng
+    thorough = ck.tier == "thorough"
+    cases, spec_in = [], []
+    reqs = {}
+    n = 30000 if thorough else 6000
+    for _ in range(n):
+        names = list(rng.choice(AC_NAMESETS))
+        rng.shuffle(names)
+        pool = names + [b"help"]
+        base = rng.choice(pool) if rng.randrange(6) else gen.rand_text(rng, 3, 2)
+        w = base[:rng.randrange(0, len(base) + 1)]
+        try:
+            w.decode("utf-8")
+        except UnicodeDecodeError:
+            w = base
+        lead = b" " * rng.choice([0, 0, 0, 1, 2])
+        trail = b" " * rng.choice([0, 0, 0, 1, 3])
+        extra = rng.choice([b"", b"", b"", b" x", b"x y"])
+        text = lead + w + extra + trail
+        nchars = len(text.decode("utf-8"))
+        back = rng.choice([0, 0, 0, 1, 2, len(trail), nchars])
+        back = min(back, nchars)
+        tlen = len(text)
+        cap = tlen + rng.choice([0, 0, 1, 1, 2, 3, 4, 6, 8, 20])
+        # editor script: type the text, move left `back` times, Tab with the candidates the derived scan would merge
+        ops = ["i:" + gen.hx(text)] if text else []
+        ops += ["ml"] * back
+        cursor = nchars - back
+        # the request word, to choose which continuations the (derived) scan would offer; the engine prints the request it really
+        # formed and the oracle skips the case if they differ
+        tchars = text.decode("utf-8")
+        right = tchars[cursor:]
+        removed = (len(right) - len(right.rstrip(" "))) if cursor < nchars else 0
+        tt = tchars[:len(tchars) - removed]
+        word = tt.lstrip(" ")
+        reqw = word.encode("utf-8") if word and " " not in word else None
+        cands = []
+        if reqw is not None:
+            for nm in names + [b"help"]:
+                if nm.startswith(reqw):
+                    cands.append(gen.hx(nm[len(reqw):]))
+        reqs[len(cases)] = gen.hx(reqw) if reqw is not None else "N"
+        ops.append("ac:" + ",".join(cands) if cands else "ac")
+        cases.append("%d %s;tr:%d" % (cap, ";".join(ops), len(cases)))
+        spec_in.append("%d %s %s %d" % (cap, ",".join(gen.hx(x) for x in names) if names else "-", gen.hx(text), cursor))
+    spec = drv_run("acspec", spec_in)
+    want = {}
+    words = {}
+    for c, si, so in zip(cases, spec_in, spec):
+        want[c] = so
+
+    def oracle(case, io):
+        last = io.split(" ")[-2]
+        req, text, cur = last.split(":")
+        if req != reqs[int(case.rsplit("tr:", 1)[1])]:
+            return "generator and implementation disagree about the request word (%s vs %s)" % (reqs[int(case.rsplit("tr:", 1)[1])], req)
+        # reconstruct the typed word from the case to make sure the offered candidates correspond to the request
+        got = "%s:%s" % (text, cur)
+        if got != want[case]:
+            return "completion spec gives %s, implementation gave %s (request %s)" % (want[case], got, req)
+        return None
+
+    # keep only cases whose request equals the word the candidates were computed for (decided by the implementation's own request output)
+    ck.run_family(Family("editor-completion", "ed", cases, oracle=oracle, shrink=None,
+                         nontrivial=lambda c, o: not o.split(" ")[-2].startswith("N:")))
+    m = 6000 if thorough else 1200
+    ses = [gen.rand_session(rng, 30, api=False) for _ in range(m)]
+    ck.run_family(Family("session-tab", "ses", ses, shrink=core.shrink_ops_line(4), decisive=False,
+                         project=lambda o: [(s_["text"], s_["cur"]) for s_ in (parse_steps(o) or [])] or o,
+                         nontrivial=lambda c, o: ";b:09" in c))
+    return ck.finish(trusted=TB_COMMON, rule="editor-completion: name sets with shared prefixes, prefix-of-another, multi-byte names, every order; line = blanks + prefix of a name (or random) "
+                     "+ optional further words + blanks; cursor anywhere; buffer size from exactly full to roomy; Editor::autocompletion + merge_autocompletion driven with the continuations of "
+                     "the matching names; result compared with the extracted complete_spec and with the model; session-tab: random sessions with Tab through the whole Cli "
+                     "(built-in help candidate). non-trivial = a completion request was formed")
+
+
+PROPS = {"C04": c04, "C02": c02, "C07": c07, "C08": c08, "C13": c13, "C05": c05, "C10": c10, "C17": c17, "C06": c06, "C15": c15, "C14": c14, "C01": c01, "C03": c03, "C11": c11}
